@@ -34,6 +34,7 @@ type FlowOpts struct {
 	HalfCloseW         int  // share (against 4+4) of breaks that are a half-close: EOF for the reader while writes block
 	FaultFrom          int  // faults only from this step on (the budget otherwise drains on the first opportunities)
 	Linger             int  // faults continue for this many steps after the workload was issued
+	MuteBroker         bool // the broker consumes and never answers (a handshake that only Close or Disconnect can end)
 	InWindow           int  // the broker's in-flight window: no new message while that many QoS 1/2 transactions are open (0: unlimited)
 	ReuseIDs           bool // the broker reuses packet identifiers as soon as their transaction is complete
 	LazyResend         bool // the broker postpones the retransmission of messages the application holds unacknowledged
